@@ -117,6 +117,7 @@ def check(ctx):
     checks, descr, seen = [], [], set()
     stats = {"machine_roundtrips": 0, "machine_files": 0, "string_roundtrips": 0, "string_files": 0, "folded_pairs": 0,
              "strings_parsed": 0}
+    recent = []
     for k in range(n):
         kind = rng.choice(["int", "dec4", "dec4", "float"])
         c = rand_contract(rng, kind)
@@ -160,6 +161,37 @@ def check(ctx):
                 elif not (equivalent_tol(back["a"], ref_a) and equivalent_tol(back["a"] + back["g"], ref_a + ref_g)):
                     ctx.violation("serialize:file_meaning_changed", f"meaning changed through the {'machine' if machine else 'string'} file round trip",
                                   dict(payload, read_back=cf.jsonable_contract(back)))
+        # ---- files with several entries, some sharing a name: every entry comes back, in order, under its name
+        if k % 7 == 0 and pp.is_feasible(c["a"] + c["g"]):
+            others = [o for o in recent if pp.is_feasible(o[1]["a"] + o[1]["g"])][-2:]
+            group = [(k1, c)] + others
+            if len(group) >= 2:
+                names = ["stage", "mixer", "stage"][:len(group)] if rng.random() < 0.6 else [f"c{j}" for j in range(len(group))]
+                if len(group) == 2 and rng.random() < 0.5:
+                    names = ["stage", "stage"]
+                fd, fn = tempfile.mkstemp(suffix=".json")
+                os.close(fd)
+                try:
+                    write_contracts_to_file([g0 for g0, _ in group], names, fn, machine_representation=True)
+                    okind, v, _ = pp.observe(lambda: read_contracts_from_file(fn))
+                finally:
+                    os.remove(fn)
+                stats["multi_entry_files"] = stats.get("multi_entry_files", 0) + 1
+                info = dict(payload, names=names, contracts=[cf.jsonable_contract(cc) for _, cc in group])
+                if okind == "ok":
+                    got_c, got_n = v
+                    if list(got_n) != names or len(got_c) != len(group):
+                        ctx.violation("serialize:file_entries_lost", "a file with several entries did not read back entry by entry", dict(info, names_read=list(got_n), count_read=len(got_c)))
+                    else:
+                        for (g0, cc), gb in zip(group, got_c):
+                            b = cf.contract_of(gb)
+                            if b["i"] != cc["i"] or b["o"] != cc["o"] or not (equivalent_tol(b["a"], cc["a"]) and equivalent_tol(b["a"] + b["g"], cc["a"] + cc["g"])):
+                                ctx.violation("serialize:file_entry_changed", "an entry of a multi-entry file came back as another contract", info)
+                                break
+                else:
+                    ctx.violation("serialize:file_unreadable", f"a written multi-entry machine file could not be read back: {v}", info)
+        recent.append((k1, c))
+        del recent[:-4]
         # ---- string form
         d = k1.to_dict()
         for key, ts in (("assumptions", c["a"]), ("guarantees", c["g"])):
